@@ -147,8 +147,8 @@ func configureEncoder() (yqlib.Encoder, error) {
 	if err != nil {
 		return nil, err
 	}
-	if indent < 0 {
-		return nil, fmt.Errorf("indent must be zero or more, got %v", indent)
+	if indent < 0 || indent > 1000000 {
+		return nil, fmt.Errorf("indent must be between 0 and 1000000, got %v", indent)
 	}
 	yqlib.ConfiguredXMLPreferences.Indent = indent
 	yqlib.ConfiguredYamlPreferences.Indent = indent
